@@ -14,6 +14,7 @@ dout == N("out", FALSE, FALSE, FALSE, "", 7)
 dab == N("ab", FALSE, FALSE, FALSE, "", 2)                 \* sibling of "a" whose name begins like it
 L1 == N("l1.cmake", TRUE, TRUE, TRUE, "l1", 6)             \* written with a Latin-1 byte: not UTF-8
 XY == N("x-y.cmake", TRUE, TRUE, TRUE, "x-y", 7)             \* sorts before x.cmake ('-' < '.')
+HD == N(".h.cmake", TRUE, TRUE, TRUE, ".h", 0)                \* a hidden file: a CMake file like any other
 XD == N("x.d.cmake", TRUE, TRUE, TRUE, "x.d", 9)             \* agrees with x.cmake up to the first dot; only the last extension goes
 doutold == N("out-old", FALSE, FALSE, FALSE, "", 7)      \* a sibling whose name merely begins like the output directory's
 
@@ -25,7 +26,7 @@ MergeAll(S) == IF S = {} THEN <<>> ELSE LET x == CHOOSE x \in S : TRUE IN x @@ M
 Mk(files, ch) == (<<>> :> [dirs |-> DOMAIN ch, files |-> files]) @@ MergeAll({Under(d, ch[d]) : d \in DOMAIN ch})
 NoCh == [d \in {} |-> <<>>]
 
-LeafFiles == {{}, {X}, {T}, {X, Y}, {X, Z}, {DE, B}, {Y}}
+LeafFiles == {{}, {X}, {T}, {X, Y}, {X, Z}, {DE, B}, {Y}, {HD}}
 Leaves == {Leaf(f) : f \in LeafFiles}
 \* one level below the input directory: a directory that may itself have sub-directories a / b
 Mids == Leaves \cup {Mk(f, (db :> l)) : f \in {{}, {X}, {T}}, l \in {Leaf({X}), Leaf({}), Leaf({Y, X})}}
@@ -38,7 +39,8 @@ SmallTrees == {Mk(f, NoCh) : f \in RootFiles}
            \cup {Mk({X}, (doutold :> Leaf({Z})) @@ (da :> Mk({X}, (doutold :> Leaf({Z})))))}
            \cup {Mk({X, T}, (da :> Leaf({Y})) @@ (db :> Leaf({X})))}
            \cup {Mk({X, L1}, (da :> Leaf({X})))}
-           \cup {Mk({X, XD}, (da :> Leaf({DE, B})))}                \* names with several dots, at the top and below
+           \cup {Mk({X, XD}, (da :> Leaf({DE, B})))}
+           \cup {Mk({X}, (da :> Mk({HD}, (db :> Leaf({X})))))}       \* a directory whose only CMake file is hidden, with a sub-directory                \* names with several dots, at the top and below
            \cup {Mk({X}, (dout :> Leaf({T})) @@ (db :> Leaf({X})) @@ (da :> Leaf({Z})))}     \* the output directory exists already
            \cup {Mk({X, XY}, (da :> Leaf({X})) @@ (dab :> Mk({Z}, (db :> Leaf({X})))))}
            \cup {Mk({X, Z, T}, (da :> m) @@ (db :> l)) : m \in {Leaf({X}), Leaf({T}), Mk({X}, (db :> Leaf({X}))), Mk({}, (db :> Leaf({X})))},
@@ -47,12 +49,14 @@ SmallTrees == {Mk(f, NoCh) : f \in RootFiles}
 P(txt, comp, dironly) == [txt |-> txt, comp |-> comp, dironly |-> dironly, abs |-> <<FALSE, <<>>>>, parent |-> ""]
 Pabs(txt, path) == [txt |-> txt, comp |-> {}, dironly |-> FALSE, abs |-> <<TRUE, path>>, parent |-> ""]
 Pin(txt, parent, comp) == [txt |-> txt, comp |-> comp, dironly |-> FALSE, abs |-> <<FALSE, <<>>>>, parent |-> parent]
-MCPatternSets == { {}, {Pin("**/b/*.cmake", "b", {"x.cmake", "z.cmake", "x-y.cmake", "d.e-f.cmake", "l1.cmake", "x.d.cmake"})}, {Pin("**/a/b", "a", {"b"})}, {P("x.cmake/", {"x.cmake"}, TRUE), P("b/", {"b"}, TRUE)}, {P("*.cmake/", {"x.cmake", "z.cmake", "x-y.cmake", "d.e-f.cmake", "l1.cmake", "x.d.cmake"}, TRUE)}, {P("a/", {"a"}, TRUE)}, {P("a/", {"a"}, TRUE), P("b", {"b"}, FALSE)}, {P("x.cmake", {"x.cmake"}, FALSE)},
+\* the whole input is excluded: by its own absolute path, and by '<ancestor>/*' (everything below that ancestor)
+WholeInput == { {Pabs("@", <<>>)}, {Pabs("**/%P/*", <<>>)} }
+MCPatternSets == WholeInput \cup { {}, {Pin("**/b/*.cmake", "b", {"x.cmake", "z.cmake", "x-y.cmake", "d.e-f.cmake", "l1.cmake", "x.d.cmake", ".h.cmake"})}, {Pin("**/a/b", "a", {"b"})}, {P("x.cmake/", {"x.cmake"}, TRUE), P("b/", {"b"}, TRUE)}, {P("*.cmake/", {"x.cmake", "z.cmake", "x-y.cmake", "d.e-f.cmake", "l1.cmake", "x.d.cmake", ".h.cmake"}, TRUE)}, {P("a/", {"a"}, TRUE)}, {P("a/", {"a"}, TRUE), P("b", {"b"}, FALSE)}, {P("x.cmake", {"x.cmake"}, FALSE)},
                    {P("x.cmake", {"x.cmake"}, FALSE), P("z.cmake", {"z.cmake"}, FALSE)}, {P("*.CMAKE", {"Y.CMAKE"}, FALSE)},
-                   {P("**/b", {"b"}, FALSE)}, {Pabs("@/a/x.cmake", <<da, X>>)}, {P("*.cmake", {"x.cmake", "z.cmake", "x-y.cmake", "d.e-f.cmake", "l1.cmake", "x.d.cmake"}, FALSE), P("n.txt", {"n.txt"}, FALSE)},
+                   {P("**/b", {"b"}, FALSE)}, {Pabs("@/a/x.cmake", <<da, X>>)}, {P("*.cmake", {"x.cmake", "z.cmake", "x-y.cmake", "d.e-f.cmake", "l1.cmake", "x.d.cmake", ".h.cmake"}, FALSE), P("n.txt", {"n.txt"}, FALSE)},
                    {P("b/", {"b"}, TRUE), P("x.cmake", {"x.cmake"}, FALSE)} }
-SmallPatternSets == { {}, {P("*.CMAKE", {"Y.CMAKE"}, FALSE)}, {Pin("**/b/*.cmake", "b", {"x.cmake", "z.cmake", "x-y.cmake", "d.e-f.cmake", "l1.cmake", "x.d.cmake"})}, {P("x.cmake/", {"x.cmake"}, TRUE), P("b/", {"b"}, TRUE)}, {P("z.cmake", {"z.cmake"}, FALSE)}, {P("a/", {"a"}, TRUE), P("b", {"b"}, FALSE)}, {P("x.cmake", {"x.cmake"}, FALSE), P("z.cmake", {"z.cmake"}, FALSE)},
-                      {P("*.cmake", {"x.cmake", "z.cmake", "x-y.cmake", "d.e-f.cmake", "l1.cmake", "x.d.cmake"}, FALSE)} }
+SmallPatternSets == WholeInput \cup { {}, {P("*.CMAKE", {"Y.CMAKE"}, FALSE)}, {Pin("**/b/*.cmake", "b", {"x.cmake", "z.cmake", "x-y.cmake", "d.e-f.cmake", "l1.cmake", "x.d.cmake", ".h.cmake"})}, {P("x.cmake/", {"x.cmake"}, TRUE), P("b/", {"b"}, TRUE)}, {P("z.cmake", {"z.cmake"}, FALSE)}, {P("a/", {"a"}, TRUE), P("b", {"b"}, FALSE)}, {P("x.cmake", {"x.cmake"}, FALSE), P("z.cmake", {"z.cmake"}, FALSE)},
+                      {P("*.cmake", {"x.cmake", "z.cmake", "x-y.cmake", "d.e-f.cmake", "l1.cmake", "x.d.cmake", ".h.cmake"}, FALSE)} }
 MCOutSub == [top |-> <<dout>>, sub |-> <<da, dout>>]
 NoDev == {}
 CurrentDev == {}
